@@ -323,6 +323,23 @@ impl Typed {
             Typed::IceControlling(a) => a,
         }
     }
+    /// Display / Debug of the typed attribute under format specifications (precision, width, flags)
+    pub fn display_spec(&self) -> String {
+        macro_rules! spec {
+            ($a:expr) => {
+                format!("{0:.0} {0:.1} {0:.3} {0:.16} {0:.800} {0:>60} {0:^9.4} {0:#} {0:#?} {0:+} {0:07}", $a)
+            };
+        }
+        match self {
+            Typed::Username(a) => spec!(a),
+            Typed::MessageIntegrity(a) => spec!(a),
+            Typed::ErrorCode(a) => spec!(a),
+            Typed::UnknownAttributes(a) => spec!(a),
+            Typed::Realm(a) => spec!(a),
+            Typed::Nonce(a) => spec!(a),
+            _ => self.display(),
+        }
+    }
     pub fn display(&self) -> String {
         match self {
             Typed::Username(a) => format!("{a} {a:?}"),
